@@ -152,6 +152,10 @@ func checkC03(c *CheckCtx) error {
 	if err := c.replayModel("Gen_Framing_sim.cfg", c.pick(500, 8000), 8, "ms", 0); err != nil {
 		return err
 	}
+	// two entries then a third call in every mode, over lines that end or start with a header text
+	if err := c.replayModel("Gen_Framing_sfx.cfg", 0, 0, "mx", 0); err != nil {
+		return err
+	}
 	return c.randomFraming(c.pick(160, 3000), allAPIs, []string{"default", "ci", "update", "other"}, 0.4, "r")
 }
 
@@ -169,6 +173,9 @@ func checkC04(c *CheckCtx) error {
 		return err
 	}
 	if err := c.replayModel("Gen_Framing_sim.cfg", c.pick(400, 6000), 8, "ms", 0); err != nil {
+		return err
+	}
+	if err := c.replayModel("Gen_Framing_sfx.cfg", 0, 0, "mx", 0); err != nil {
 		return err
 	}
 	if err := c.updateShapes(); err != nil {
